@@ -459,6 +459,11 @@ impl<'a, 's> Gen<'a, 's> {
             }
         }
         let mut ps2: Vec<E> = ps[1..].iter().map(|p| go(p, &cmds, rot)).collect();
+        if self.s.bool() {
+            // same table shape, alternatives split over the || levels differently
+            let cut = self.s.below(4);
+            ps2 = ps2.iter().map(|p| resplit_levels(p, cut)).collect();
+        }
         ps2.insert(0, self.lit(&new_opener));
         Some(E::Word(ps2))
     }
